@@ -1,19 +1,410 @@
-//! MMIO world behind safe-mmio's `custom-mmio` feature (filled in by the transport families).
+//! The MMIO world behind safe-mmio's `custom-mmio` feature: every register access of the real
+//! `MmioTransport`, `PciTransport` and `MmioCam` arrives here with its address and width, is
+//! logged, and is served by a register-level device model.
+
+use crate::core::*;
+use crate::transport::{call_cfg_cb, call_notify_cb};
+use serde_json::json;
+use std::cell::RefCell;
 use std::ptr::NonNull;
+use std::rc::Rc;
 
-pub fn phys_to_virt(_paddr: u64, _size: usize) -> NonNull<u8> {
-    NonNull::dangling()
+pub trait MmioDev {
+    fn read(&mut self, off: usize, width: u8) -> u64;
+    fn write(&mut self, off: usize, width: u8, v: u64);
 }
 
-pub struct World;
-impl safe_mmio::MmioOps for World {
-    unsafe fn read_u8(src: *const u8) -> u8 { unsafe { src.read_volatile() } }
-    unsafe fn read_u16(src: *const u16) -> u16 { unsafe { src.read_volatile() } }
-    unsafe fn read_u32(src: *const u32) -> u32 { unsafe { src.read_volatile() } }
-    unsafe fn read_u64(src: *const u64) -> u64 { unsafe { src.read_volatile() } }
-    unsafe fn write_u8(dst: *mut u8, value: u8) { unsafe { dst.write_volatile(value) } }
-    unsafe fn write_u16(dst: *mut u16, value: u16) { unsafe { dst.write_volatile(value) } }
-    unsafe fn write_u32(dst: *mut u32, value: u32) { unsafe { dst.write_volatile(value) } }
-    unsafe fn write_u64(dst: *mut u64, value: u64) { unsafe { dst.write_volatile(value) } }
+pub struct Window {
+    pub base: usize,
+    pub size: usize,
+    pub dev: Rc<RefCell<dyn MmioDev>>,
+    pub label: &'static str,
+    /// device ("physical") address of the window, for PCI BARs reached through mmio_phys_to_virt
+    pub pa: u64,
+    layout: std::alloc::Layout,
 }
-safe_mmio::set_mmio_ops!(World);
+
+thread_local! {
+    /// configuration update (generation, bytes) requested by a scenario while the device model is
+    /// busy serving an access; applied before that access is answered
+    pub static PENDING_CFG: RefCell<Option<(u32, Vec<u8>)>> = const { RefCell::new(None) };
+    static WINDOWS: RefCell<Vec<Window>> = const { RefCell::new(Vec::new()) };
+}
+
+/// Reserve a host address range for a window and route accesses inside it to `dev`.
+pub fn map(size: usize, dev: Rc<RefCell<dyn MmioDev>>, label: &'static str, pa: u64) -> *mut u8 {
+    let layout = std::alloc::Layout::from_size_align(std::cmp::max(size, 8).next_multiple_of(8), 4096).unwrap();
+    // the memory is never dereferenced (all accesses are intercepted); it only reserves addresses
+    let base = unsafe { std::alloc::alloc_zeroed(layout) };
+    WINDOWS.with(|w| w.borrow_mut().push(Window { base: base as usize, size, dev, label, pa, layout }));
+    base
+}
+
+pub fn unmap_all() {
+    WINDOWS.with(|w| {
+        for win in w.borrow_mut().drain(..) {
+            unsafe { std::alloc::dealloc(win.base as *mut u8, win.layout) };
+        }
+    });
+}
+
+fn find(addr: usize, width: usize) -> Option<(Rc<RefCell<dyn MmioDev>>, usize, &'static str)> {
+    WINDOWS.with(|w| {
+        for win in w.borrow().iter() {
+            if addr >= win.base && addr + width <= win.base + win.size {
+                return Some((win.dev.clone(), addr - win.base, win.label));
+            }
+        }
+        None
+    })
+}
+
+/// `Hal::mmio_phys_to_virt`: PCI BAR regions are windows registered with their device address.
+pub fn phys_to_virt(paddr: u64, size: usize) -> NonNull<u8> {
+    let r = WINDOWS.with(|w| {
+        for win in w.borrow().iter() {
+            if win.pa != 0 && paddr >= win.pa && paddr + size as u64 <= win.pa + win.size as u64 {
+                return Some((win.base + (paddr - win.pa) as usize) as *mut u8);
+            }
+        }
+        None
+    });
+    with_world(|w| w.reg(json!({"e":"PhysToVirt","pa":hex(paddr),"pal":limbs(paddr,4),"size":size,"sizel":limbs(size as u64,4),"mapped":r.is_some()})));
+    match r {
+        Some(p) => NonNull::new(p).unwrap(),
+        // an address nobody may touch: accesses through it are reported as strays
+        None => NonNull::new(0x10 as *mut u8).unwrap(),
+    }
+}
+
+fn do_read(addr: usize, width: u8) -> u64 {
+    match find(addr, width as usize) {
+        Some((dev, off, _)) => dev.borrow_mut().read(off, width),
+        None => {
+            with_world(|w| w.reg(json!({"e":"MmioStray","rw":"r","addr":hex(addr as u64),"w":width})));
+            0
+        }
+    }
+}
+fn do_write(addr: usize, width: u8, v: u64) {
+    match find(addr, width as usize) {
+        Some((dev, off, _)) => dev.borrow_mut().write(off, width, v),
+        None => with_world(|w| w.reg(json!({"e":"MmioStray","rw":"w","addr":hex(addr as u64),"w":width,"v":hex(v)}))),
+    }
+}
+
+pub struct Backend;
+impl safe_mmio::MmioOps for Backend {
+    unsafe fn read_u8(src: *const u8) -> u8 {
+        do_read(src as usize, 1) as u8
+    }
+    unsafe fn read_u16(src: *const u16) -> u16 {
+        do_read(src as usize, 2) as u16
+    }
+    unsafe fn read_u32(src: *const u32) -> u32 {
+        do_read(src as usize, 4) as u32
+    }
+    unsafe fn read_u64(src: *const u64) -> u64 {
+        do_read(src as usize, 8)
+    }
+    unsafe fn write_u8(dst: *mut u8, value: u8) {
+        do_write(dst as usize, 1, value as u64)
+    }
+    unsafe fn write_u16(dst: *mut u16, value: u16) {
+        do_write(dst as usize, 2, value as u64)
+    }
+    unsafe fn write_u32(dst: *mut u32, value: u32) {
+        do_write(dst as usize, 4, value as u64)
+    }
+    unsafe fn write_u64(dst: *mut u64, value: u64) {
+        do_write(dst as usize, 8, value)
+    }
+}
+safe_mmio::set_mmio_ops!(Backend);
+
+// ------------------------------------------------------------------------------------------------
+/// Log one register access (stream 2).
+pub fn log_access(space: &str, rw: &str, off: usize, width: u8, v: u64) {
+    with_world(|w| w.reg(json!({"e":"M","sp":space,"rw":rw,"off":off,"w":width,"v":hex(v),"vl":limbs(v,4)})));
+}
+
+#[derive(Clone, Default, Debug)]
+pub struct MmioQueue {
+    pub num_max: u32,
+    pub num: u32,
+    pub ready: u32,
+    pub pfn: u32,
+    pub align: u32,
+    pub desc: u64,
+    pub driver: u64,
+    pub device: u64,
+}
+
+/// Register-level model of a virtio-mmio device (Virtio 1.2 section 4.2.2 / 4.2.4).
+pub struct VirtioMmioDev {
+    pub magic: u32,
+    pub version: u32,
+    pub device_id: u32,
+    pub vendor_id: u32,
+    pub offered: u64,
+    pub dev_sel: u32,
+    pub drv_sel: u32,
+    pub negotiated: u64,
+    pub page_size: u32,
+    pub queue_sel: u32,
+    pub queues: Vec<MmioQueue>,
+    pub isr: u32,
+    pub status: u32,
+    pub config: Vec<u8>,
+    pub config_gen: u32,
+    /// emit the abstract transport events (status, features, queue_set, notify) and register
+    /// queues with the reference device
+    pub semantic: bool,
+}
+
+impl VirtioMmioDev {
+    pub fn new(version: u32, device_id: u32, offered: u64, nqueues: usize, num_max: u32, config: Vec<u8>) -> Self {
+        VirtioMmioDev {
+            magic: 0x7472_6976,
+            version,
+            device_id,
+            vendor_id: 0x554d4551,
+            offered,
+            dev_sel: 0,
+            drv_sel: 0,
+            negotiated: 0,
+            page_size: 0,
+            queue_sel: 0,
+            queues: vec![MmioQueue { num_max, ..Default::default() }; nqueues],
+            isr: 0,
+            status: 0,
+            config,
+            config_gen: 0,
+            semantic: true,
+        }
+    }
+    fn apply_pending(&mut self) {
+        if let Some((g, bytes)) = PENDING_CFG.with(|p| p.borrow_mut().take()) {
+            self.config = bytes;
+            self.config_gen = g;
+        }
+    }
+    fn q(&mut self) -> Option<&mut MmioQueue> {
+        let s = self.queue_sel as usize;
+        self.queues.get_mut(s)
+    }
+    fn tev(&self, v: serde_json::Value) {
+        if self.semantic {
+            with_world(|w| w.dev(v));
+        }
+    }
+    fn reset(&mut self) {
+        self.negotiated = 0;
+        self.dev_sel = 0;
+        self.drv_sel = 0;
+        self.queue_sel = 0;
+        self.isr = 0;
+        for q in self.queues.iter_mut() {
+            let m = q.num_max;
+            *q = MmioQueue { num_max: m, ..Default::default() };
+        }
+        if self.semantic {
+            with_world(|w| {
+                for (_, q) in w.queues.iter_mut() {
+                    q.live = false;
+                }
+            });
+        }
+    }
+    fn queue_enabled(&mut self) {
+        let qi = self.queue_sel as u16;
+        let legacy = self.version == 1;
+        let page = self.page_size as u64;
+        let st = self.status;
+        let Some(q) = self.q().cloned() else { return };
+        let (n, desc, avail, used) = if legacy {
+            let desc = q.pfn as u64 * page;
+            let avail = desc + 16 * q.num as u64;
+            let end = avail + 6 + 2 * q.num as u64;
+            let al = std::cmp::max(q.align as u64, 1);
+            (q.num, desc, avail, end.div_ceil(al) * al)
+        } else {
+            (q.num, q.desc, q.driver, q.device)
+        };
+        self.tev(json!({"e":"T","op":"queue_set","q":qi,"size":n,"desc":hex(desc),"avail":hex(avail),"used":hex(used),
+                        "descl":limbs(desc,4),"availl":limbs(avail,4),"usedl":limbs(used,4),"status":st}));
+        if self.semantic && n > 0 && (n as usize).is_power_of_two() {
+            with_world(|w| w.queue_register(qi, n as usize, desc, avail, used));
+        }
+    }
+    fn queue_disabled(&mut self) {
+        let qi = self.queue_sel as u16;
+        self.tev(json!({"e":"T","op":"queue_unset","q":qi}));
+        if self.semantic {
+            with_world(|w| {
+                if let Some(q) = w.queues.get_mut(&qi) {
+                    q.live = false;
+                }
+            });
+        }
+    }
+}
+
+impl MmioDev for VirtioMmioDev {
+    fn read(&mut self, off: usize, width: u8) -> u64 {
+        if off >= 0x100 {
+            call_cfg_cb("read", off - 0x100);
+            self.apply_pending();
+            let o = off - 0x100;
+            let mut v = 0u64;
+            for i in 0..width as usize {
+                v |= (self.config.get(o + i).copied().unwrap_or(0xee) as u64) << (8 * i);
+            }
+            log_access("mmio", "r", off, width, v);
+            self.tev(json!({"e":"T","op":"cfg_read","off":o,"size":width,"ok":true}));
+            return v;
+        }
+        let v: u32 = match off {
+            0x000 => self.magic,
+            0x004 => self.version,
+            0x008 => self.device_id,
+            0x00c => self.vendor_id,
+            0x010 => {
+                let v = if self.dev_sel == 0 { self.offered as u32 } else if self.dev_sel == 1 { (self.offered >> 32) as u32 } else { 0 };
+                if self.dev_sel == 0 {
+                    self.tev(json!({"e":"T","op":"read_features","v":hex(self.offered)}));
+                }
+                v
+            }
+            0x034 => self.queues.get(self.queue_sel as usize).map(|q| q.num_max).unwrap_or(0),
+            0x040 => self.queues.get(self.queue_sel as usize).map(|q| q.pfn).unwrap_or(0),
+            0x044 => self.queues.get(self.queue_sel as usize).map(|q| q.ready).unwrap_or(0),
+            0x060 => self.isr,
+            0x070 => self.status,
+            0x0fc => {
+                call_cfg_cb("gen", 0);
+                self.apply_pending();
+                self.tev(json!({"e":"T","op":"cfg_gen","v":self.config_gen}));
+                self.config_gen
+            }
+            _ => 0,
+        };
+        log_access("mmio", "r", off, width, v as u64);
+        v as u64
+    }
+
+    fn write(&mut self, off: usize, width: u8, v: u64) {
+        log_access("mmio", "w", off, width, v);
+        if off >= 0x100 {
+            let o = off - 0x100;
+            for i in 0..width as usize {
+                if let Some(b) = self.config.get_mut(o + i) {
+                    *b = (v >> (8 * i)) as u8;
+                }
+            }
+            self.tev(json!({"e":"T","op":"cfg_write","off":o,"size":width,"ok":true}));
+            return;
+        }
+        let v32 = v as u32;
+        match off {
+            0x014 => self.dev_sel = v32,
+            0x020 => {
+                if self.drv_sel == 0 {
+                    self.negotiated = (self.negotiated & !0xffff_ffff) | v32 as u64;
+                } else if self.drv_sel == 1 {
+                    self.negotiated = (self.negotiated & 0xffff_ffff) | ((v32 as u64) << 32);
+                    let n = self.negotiated;
+                    self.tev(json!({"e":"T","op":"write_features","v":hex(n),"vl":limbs(n,4)}));
+                    if self.semantic {
+                        crate::transport::set_negotiated(n);
+                    }
+                }
+            }
+            0x024 => self.drv_sel = v32,
+            0x028 => {
+                self.page_size = v32;
+                self.tev(json!({"e":"T","op":"set_guest_page_size","v":v32}));
+            }
+            0x030 => self.queue_sel = v32,
+            0x038 => {
+                if let Some(q) = self.q() {
+                    q.num = v32;
+                }
+            }
+            0x03c => {
+                if let Some(q) = self.q() {
+                    q.align = v32;
+                }
+            }
+            0x040 => {
+                let was = self.q().map(|q| q.pfn).unwrap_or(0);
+                if let Some(q) = self.q() {
+                    q.pfn = v32;
+                }
+                if v32 != 0 {
+                    self.queue_enabled();
+                } else if was != 0 {
+                    self.queue_disabled();
+                }
+            }
+            0x044 => {
+                let was = self.q().map(|q| q.ready).unwrap_or(0);
+                if let Some(q) = self.q() {
+                    q.ready = v32 & 1;
+                }
+                if v32 & 1 == 1 && was == 0 {
+                    self.queue_enabled();
+                } else if v32 & 1 == 0 && was != 0 {
+                    self.queue_disabled();
+                }
+            }
+            0x050 => {
+                let st = self.status;
+                self.tev(json!({"e":"T","op":"notify","q":v32,"status":st}));
+                if self.semantic {
+                    with_world(|w| w.qev(v32 as u16, json!({"e":"Notify"})));
+                    call_notify_cb(v32 as u16);
+                }
+            }
+            0x064 => self.isr &= !v32,
+            0x070 => {
+                self.status = v32;
+                self.tev(json!({"e":"T","op":"set_status","v":v32}));
+                if v32 == 0 {
+                    self.reset();
+                }
+            }
+            0x080 => {
+                if let Some(q) = self.q() {
+                    q.desc = (q.desc & !0xffff_ffff) | v32 as u64;
+                }
+            }
+            0x084 => {
+                if let Some(q) = self.q() {
+                    q.desc = (q.desc & 0xffff_ffff) | ((v32 as u64) << 32);
+                }
+            }
+            0x090 => {
+                if let Some(q) = self.q() {
+                    q.driver = (q.driver & !0xffff_ffff) | v32 as u64;
+                }
+            }
+            0x094 => {
+                if let Some(q) = self.q() {
+                    q.driver = (q.driver & 0xffff_ffff) | ((v32 as u64) << 32);
+                }
+            }
+            0x0a0 => {
+                if let Some(q) = self.q() {
+                    q.device = (q.device & !0xffff_ffff) | v32 as u64;
+                }
+            }
+            0x0a4 => {
+                if let Some(q) = self.q() {
+                    q.device = (q.device & 0xffff_ffff) | ((v32 as u64) << 32);
+                }
+            }
+            _ => {}
+        }
+    }
+}
